@@ -55,3 +55,31 @@ Definition line_or_notice (gends : bytes -> list nat) (lt : lineterm) (max : opt
       ++ preview_notice_spec matches cut (length shown) ++ lt_bytes lt
     else omitted_notice_spec only_matching is_ctx (length matches) ++ lt_bytes lt
   end.
+
+(* ---- a multi-line block printed line by line through the span-aware path (-U with --column / --stats):
+   the text of the line [s, e) of the block `bytes`; matches, the cut and the line's end are all offsets
+   into the block.  The whitespace prefix is dropped, a line not longer than the limit is written without
+   its terminator and re-terminated. *)
+Definition block_line_text (gends : bytes -> list nat) (lt : lineterm) (max : option nat) (preview trim : bool)
+           (is_ctx : bool) (matches : list (nat * nat)) (blk : bytes) (s e : nat) : bytes :=
+  let s' := if trim then s + length (take_while (trimmable lt) (sub blk s e)) else s in
+  let shown := sub blk s' e in
+  let plain := sub blk s' (trim_line_terminator lt blk s' e) ++ lt_bytes lt in
+  match max with
+  | None => plain
+  | Some limit =>
+    if Nat.leb (length shown) limit then plain
+    else if preview then
+      let cut := preview_cut gends limit shown + s' in
+      sub blk s' (trim_line_terminator lt blk s' cut) ++ preview_notice_spec matches cut e ++ lt_bytes lt
+    else omitted_notice_spec false is_ctx (length matches) ++ lt_bytes lt
+  end.
+
+(* where the Rust code would panic (Match::with_end asserts start <= end): stripping the terminator of the
+   (cut) line must not move its end before its start *)
+Definition block_line_guard (gends : bytes -> list nat) (lt : lineterm) (max : option nat) (trim : bool)
+           (blk : bytes) (s e : nat) : Prop :=
+  let s' := if trim then s + length (take_while (trimmable lt) (sub blk s e)) else s in
+  s' <= trim_line_terminator lt blk s' e /\
+  forall limit, max = Some limit ->
+    s' <= trim_line_terminator lt blk s' (preview_cut gends limit (sub blk s' e) + s').
